@@ -605,3 +605,55 @@ func VerifC13_sharedrow() {
 		vfAssert(nCell == wantCell, "shared-row-cell-callbacks-once-per-cell-per-pass")
 	}
 }
+
+type vfCountCB struct{ n int }
+
+func (cb *vfCountCB) UpdateProperties(po PropertyOwner) error {
+	cb.n++
+	return nil
+}
+
+// VerifC13_equalcallbacks: two distinct callback objects that happen to be in the same state when they
+// are registered (two fresh counters) are two registrations: each fires once per matching target.
+func VerifC13_equalcallbacks() {
+	t := New()
+	t.AddHeaders("h1", "h2")
+	t.AddRowItems("a", "b")
+	t.AddRowItems("c", "d")
+	cb1, cb2 := &vfCountCB{}, &vfCountCB{}
+	row := t.AllRows()[0]
+	cell, _ := t.CellAt(CellLocation{Row: 2, Column: 2})
+	want := 0
+	switch vfChoice("owner", 5) {
+	case 0: // table-level cell callbacks: header cells and body cells
+		vfAssert(t.RegisterPropertyCallback(t, CB_AT_RENDER, CB_ON_CELL, cb1) == nil, "register-ok")
+		vfAssert(t.RegisterPropertyCallback(t, CB_AT_RENDER, CB_ON_CELL, cb2) == nil, "register-ok")
+		want = 6
+	case 1: // a row: its own pass and (same list in the implementation) the row target
+		vfAssert(t.RegisterPropertyCallback(row, CB_AT_RENDER_POSTCELL, CB_ON_ITSELF, cb1) == nil, "register-ok")
+		vfAssert(t.RegisterPropertyCallback(row, CB_AT_RENDER_POSTCELL, CB_ON_ROW, cb2) == nil, "register-ok")
+		want = 1
+	case 2: // a cell
+		vfAssert(t.RegisterPropertyCallback(cell, CB_AT_RENDER, CB_ON_ITSELF, cb1) == nil, "register-ok")
+		vfAssert(t.RegisterPropertyCallback(cell, CB_AT_RENDER, CB_ON_CELL, cb2) == nil, "register-ok")
+		want = 1
+	case 3: // the table itself, before and after the cells
+		vfAssert(t.RegisterPropertyCallback(t, CB_AT_RENDER_PRECELL, CB_ON_ITSELF, cb1) == nil, "register-ok")
+		vfAssert(t.RegisterPropertyCallback(t, CB_AT_RENDER_PRECELL, CB_ON_ITSELF, cb2) == nil, "register-ok")
+		want = 1
+	case 4: // a header cell, reached through Headers()
+		hc := &t.Headers()[0]
+		vfAssert(t.RegisterPropertyCallback(hc, CB_AT_RENDER, CB_ON_ITSELF, cb1) == nil, "register-ok")
+		vfAssert(t.RegisterPropertyCallback(hc, CB_AT_RENDER, CB_ON_ITSELF, cb2) == nil, "register-ok")
+		want = 1
+		vfTag("header-cell-callback")
+	}
+	passes := 1 + vfChoice("passes", 2)
+	for p := 0; p < passes; p++ {
+		t.InvokeRenderCallbacks()
+	}
+	vfAssert(cb1.n == want*passes, "first-of-two-equal-callbacks-fires-once-per-target")
+	vfAssert(cb2.n == want*passes, "second-of-two-equal-callbacks-fires-once-per-target")
+	vfObserveInt("n1", cb1.n)
+	vfObserveInt("n2", cb2.n)
+}
